@@ -340,6 +340,46 @@ def _split_bases(model, rep):
                          bad, fn.lineno)
 
 
+def _supermesh_vertices(model, rep):
+    """supermeshing._intersect1d merges the vertices of the two segment
+    meshes into the vertices of the supermesh.  The element-wise quadrature
+    built on it is exact only if the cells of the supermesh end at the
+    *breakpoints themselves*: the vertices handed to the supermesh must be
+    the operands' coordinates (a position, not a rounded copy), and which
+    vertices count as one must not depend on the unit of length or the
+    position of the meshes.  Abstract evaluation over {position, invariant
+    quantity} (skv/invariance.py)."""
+    R1 = "C02-R1"
+    from ..invariance import AFF, straight_line
+    fn = model.func("skfem.supermeshing", "_intersect1d")
+    init = {p_: (AFF if p_.startswith("p") else ("inv", 0))
+            for p_ in fn.params()}
+    out, env, ev = straight_line(fn.node.body, init)
+    ctor = [c for c in ast.walk(fn.node) if isinstance(c, ast.Call)
+            and src(c.func) == "MeshLine" and c.args
+            and isinstance(c.args[0], ast.Name)]
+    ret = [c for c in ctor if any(isinstance(r, ast.Return) and c in list(
+        ast.walk(r)) for r in ast.walk(fn.node))]
+    if not ret:
+        raise AnalysisError("_intersect1d: returned supermesh not found")
+    # the value of the point array at the end of the function
+    v = env.get(ret[0].args[0].id, ("bad", "point array not assigned"))
+    cons = "_intersect1d:supermesh-vertices"
+    if v == AFF:
+        rep.ok(R1, cons, "the supermesh is built from the operands' "
+               "coordinates; the merge of coincident vertices is invariant "
+               "under translation and change of unit")
+    else:
+        first = next((st for st, nm, val in out if val[0] == "bad"), None)
+        rep.fail(R1, fn.path, "_intersect1d", cons,
+                 f"the vertices of the 1-D supermesh are not the operands' "
+                 f"coordinates up to a scale-free merge: {v[1]} - for "
+                 f"meshes of size 1e-6 the breakpoints move by 3e-5 of the "
+                 f"mesh size and element-wise quadrature integrates across "
+                 f"them; at 1e-10 the supermesh collapses to one cell",
+                 first.lineno if first is not None else fn.lineno)
+
+
 def _supermesh_quadrature(model, rep):
     """supermeshing.elementwise_quadrature builds, per cell of the mesh, the
     rule of the supermesh triangles lying in it: points Y = F_mesh^-1
@@ -811,6 +851,7 @@ def run(model: Model, rep, tier: str) -> None:
     staged(lambda: _derived_bases(model, rep),
            lambda: _split_bases(model, rep),
            lambda: _supermesh_quadrature(model, rep),
+           lambda: _supermesh_vertices(model, rep),
            lambda: _boundary_basis(model, rep),
            lambda: _r12(model, rep), lambda: _interior_basis(model, rep),
            lambda: _r3(model, rep))
@@ -823,6 +864,15 @@ _CB = "skfem/assembly/basis/cell_basis.py"
 _FB = "skfem/assembly/basis/facet_basis.py"
 _ABF = "skfem/assembly/basis/abstract_basis.py"
 MUTANTS = [
+    ("1-D supermesh built from rounded nodes",
+     ("skfem/supermeshing.py",
+      "    p = np.sort(np.concatenate((p1.flatten(), p2.flatten())))",
+      "    p = np.sort(np.concatenate((p1.flatten().round(decimals=10), "
+      "p2.flatten().round(decimals=10))))"), "C02-R1"),
+    ("1-D supermesh merges nodes with an absolute tolerance",
+     ("skfem/supermeshing.py",
+      "np.diff(p) > 1e-10 * (p[-1] - p[0])))]", "np.diff(p) > 1e-10))]"),
+     "C02-R1"),
     ("supermesh quadrature divides by the mesh Jacobian at the supermesh's "
      "reference points",
      ("skfem/supermeshing.py",
@@ -913,6 +963,10 @@ MUTANTS = [
       "    maxdeg = 4\n"), "C02-R3"),
 ]
 TWINS = [
+    ("1-D supermesh merge tolerance from np.ptp",
+     ("skfem/supermeshing.py",
+      "np.diff(p) > 1e-10 * (p[-1] - p[0])))]",
+      "np.diff(p) > 1e-10 * np.ptp(p)))]")),
     ("default order raised to 2*maxdeg + 1",
      (_ABF, "intorder if intorder is not None else 2 * self.elem.maxdeg",
       "intorder if intorder is not None else 2 * self.elem.maxdeg + 1")),
